@@ -411,13 +411,22 @@ fn format_lambda(args: &[LambdaArg], body: &SpannedExpr, max_cols: usize, indent
         return format!("{} ({})", args_part, body_formatted);
     }
 
-    // Try single-line first for other body types
-    let single_line_body = format_expr_impl(body, max_cols, indent);
-    let single_line = format!("{} {}", args_part, single_line_body);
+    // Try single-line first for other body types. Formatting the body is only worth it when
+    // the result can be a single line that fits: a body that has to span several lines, or whose
+    // flat form is already too long, goes on the next line. (Formatting the body at both
+    // indentations unconditionally made nested lambdas exponentially slow.)
+    let flat_body = format_single_line(body);
+    let can_fit_on_one_line = !flat_body.contains('\n')
+        && !contains_comments(body)
+        && indent + args_part.len() + 1 + flat_body.len() <= max_cols;
+    if can_fit_on_one_line {
+        let single_line_body = format_expr_impl(body, max_cols, indent);
+        let single_line = format!("{} {}", args_part, single_line_body);
 
-    // Check only if it's actually single-line and fits
-    if !single_line.contains('\n') && indent + single_line.len() <= max_cols {
-        return single_line;
+        // Check only if it's actually single-line and fits
+        if !single_line.contains('\n') && indent + single_line.len() <= max_cols {
+            return single_line;
+        }
     }
 
     // Otherwise, put body on next line with increased indentation
